@@ -49,6 +49,7 @@ FIRST = {
     'z09-C17': 'caught', 'z10-C19': 'caught',
     'z04-C11': 'missed -> S1 payload-only-from-state',
     'z08-C16': 'missed -> new rule I5 (hand-driven iterator compared with end before every dereference)',
+    'z07-C15': 'analysis error in C13 only (restore moved into a local helper) -> D1 looks through the helper, the statement CFG lets exceptions no handler matches escape `except Exception`, D1 added to C15',
 }
 
 
